@@ -59,10 +59,14 @@ func c10Spec(c c10Case) idp.LogoutSpec {
 		l.Destination = "https://evil.example.com/slo"
 	case 5:
 		l.Destination = c03NearMiss(world.SPSLO) // differs in letter case only
+	case 6:
+		l.Destination = c03NearMiss(world.SPSLO, 1) // differs by a trailing slash
 	}
 	switch c.Issuer {
 	case 3:
 		l.Issuer = c03NearMiss(world.IDPIssuer)
+	case 4:
+		l.Issuer = c03NearMiss(world.IDPIssuer, 1)
 	case 1:
 		l.Issuer = "https://other-idp.example.com/metadata"
 	case 2:
@@ -159,7 +163,7 @@ func c10Model(c c10Case) (v []c03Viol) {
 	if c.Issuer == 2 {
 		v = append(v, c03Viol{"Issuer absent", []string{"Issuer"}, []string{"ErrMissingElement"}})
 	}
-	if (c.Issuer == 1 || c.Issuer == 3) && !c.NoIssuer {
+	if (c.Issuer == 1 || c.Issuer >= 3) && !c.NoIssuer {
 		v = append(v, c03Viol{"Issuer wrong", []string{"Issuer"}, []string{"ErrInvalidValue"}})
 	}
 	if c.Kind == "LogoutResponse" {
@@ -409,8 +413,8 @@ func c10Cases() []c10Case {
 		c := c10Case{}
 		c.Kind = []string{"LogoutRequest", "LogoutResponse"}[ch.Choose("kind", 2)]
 		c.Version = ch.Choose("version", 3)
-		c.Dest = ch.Choose("dest", 6)
-		c.Issuer = ch.Choose("issuer", 4)
+		c.Dest = ch.Choose("dest", 7)
+		c.Issuer = ch.Choose("issuer", 5)
 		if c.Kind == "LogoutResponse" {
 			c.Status = ch.Choose("status", 6)
 		}
@@ -433,7 +437,7 @@ func c10Cases() []c10Case {
 }
 
 func c10Run(r *mc.Run) {
-	r.Rule = "full product kind(2) x Version(3) x Destination(6: SLO URL, absent, empty, ACS URL, evil, the SLO URL in another letter case) x Issuer(4 incl. the issuer in another letter case) x Status(6 incl. nested second-level codes, LogoutResponse) x signing state(9: unsigned, K1, K2, untrusted, tampered, 4 wrapping/relocation shapes) x presentation(2) x signature checking(2) x IdP issuer configured(2), unsigned roots also with a self-asserted SignatureValidated attribute; kind-confusion matrix 3x3x2x2; ValidateDecoded* on hand-built structs (full field product); non-trivial = the message reached the field checks or the signature logic (all do); distinct = distinct case"
+	r.Rule = "full product kind(2) x Version(3) x Destination(7: SLO URL, absent, empty, ACS URL, evil, the SLO URL in another letter case / with a trailing slash) x Issuer(5 incl. the issuer in another letter case / with a trailing slash) x Status(6 incl. nested second-level codes, LogoutResponse) x signing state(9: unsigned, K1, K2, untrusted, tampered, 4 wrapping/relocation shapes) x presentation(2) x signature checking(2) x IdP issuer configured(2), unsigned roots also with a self-asserted SignatureValidated attribute; kind-confusion matrix 3x3x2x2; ValidateDecoded* on hand-built structs (full field product); non-trivial = the message reached the field checks or the signature logic (all do); distinct = distinct case"
 	r.Assume("RSA unforgeable", "goxmldsig canonicalisers used by the harness signer")
 	cases := c10Cases()
 	n := len(cases)
